@@ -33,6 +33,7 @@ Definition p_op : parser (N * ev) :=
   | 11 => let* n := pN in pret (dt, EBump n)
   | 12 => let* c := pN in pret (dt, EShutSub c)
   | 13 => let* p := pN in pret (dt, EOpenFull p)
+  | 14 => let* p := pN in let* fs := pBool in let* fp := pBool in pret (dt, EForce p fs fp)
   | _ => pfail
   end.
 
@@ -48,7 +49,7 @@ Definition ev_small (e : ev) : bool :=
   match e with
   | EEst p c | EClosed p c | ESubIn p c _ => small p && small c
   | ESubOut i _ | ESubFail i => small i || ((ID_MOD - 2000000 <? i) && (i <? ID_MOD))
-  | EDialFail p | EOpen p | EOpenFull p => small p
+  | EDialFail p | EOpen p | EOpenFull p | EForce p _ _ => small p
   | EDropSub c | EOtherUp c | EOtherDown c | EShutSub c => small c
   | EBump n => small n
   | ENone => true
@@ -78,6 +79,8 @@ Definition enc_out (o : out) : list N :=
   | OPanic => [8; 0; 0]
   | OSkip => [9; 0; 0]
   | ODown p c => [10; p; c]
+  | OForce c => [11; c; 0]
+  | ORetF r => [12; r; 0]
   end.
 
 Definition kkey (k : key) : N := fst k * 1000000 + snd k.
@@ -94,8 +97,12 @@ Definition dump (s : st) : list N :=
 (* ODown events of one poll are reported sorted (the tracker's FuturesUnordered has no order) *)
 Definition is_down (o : out) : bool := match o with ODown _ _ => true | _ => false end.
 Definition down_key (o : out) : N := match o with ODown p c => kkey (p, c) | _ => 0 end.
+Definition is_force (o : out) : bool := match o with OForce _ => true | _ => false end.
+Definition force_key (o : out) : N := match o with OForce c => c | _ => 0 end.
+(* ... and the ForceClose commands of one force_close call go to different channels: by channel *)
 Definition canon_outs (os : list out) : list out :=
-  filter (fun o => negb (is_down o)) os ++ sort_by down_key (filter is_down os).
+  filter (fun o => negb (is_down o) && negb (is_force o)) os ++ sort_by force_key (filter is_force os) ++
+  sort_by down_key (filter is_down os).
 
 Fixpoint run_trace (s : st) (tr : list (N * ev)) : list N :=
   match tr with
@@ -114,13 +121,13 @@ Definition run_case_svc (l : list N) : list N :=
 (* ---- decoding a trace ---- *)
 Inductive tout :=   (* outputs as they appear on the wire (no ghosts) *)
 | TEst (p : N) | TClosed (p : N) | TSub (p : N) (d : option N) | TFail (i : N) | TDial (p : N)
-| TRet (r i : N) | TCmd (c i : N) | TPanic | TSkip | TDown (p c : N).
+| TRet (r i : N) | TCmd (c i : N) | TPanic | TSkip | TDown (p c : N) | TForce (c : N) | TRetF (r : N).
 Definition p_tout : parser tout :=
   let* tag := pN in let* a := pN in let* b := pN in
   match tag with
   | 1 => pret (TEst a) | 2 => pret (TClosed a) | 3 => pret (TSub a (option_map rid (dec_opt b))) | 4 => pret (TFail (rid a))
   | 5 => pret (TDial a) | 6 => pret (TRet a (rid b)) | 7 => pret (TCmd a (rid b)) | 8 => pret TPanic
-  | 9 => pret TSkip | 10 => pret (TDown a b)
+  | 9 => pret TSkip | 10 => pret (TDown a b) | 11 => pret (TForce a) | 12 => pret (TRetF a)
   | _ => pfail
   end.
 Record tctx := mkT { t_peer : N; t_prim : N; t_pact : bool; t_sec : option (N * bool) }.
@@ -219,6 +226,24 @@ Definition out8 (live : list key) (n0 : N) (e : ev) (os : list tout) (a : acc8) 
   | TCmd _ _ => mkA (a_conn a) (a_pend a) (a_maxid a)
                     (a_ok a && existsb (fun o' => match o' with TRet 0 _ => true | _ => false end) os)
   | TPanic => mkA (a_conn a) (a_pend a) (a_maxid a) false
+  | TForce c =>    (* ForceClose only on force_close(p), only to an open connection of p *)
+      match e with
+      | EForce p _ _ => mkA (a_conn a) (a_pend a) (a_maxid a) (a_ok a && mem c (live_of p live))
+      | _ => mkA (a_conn a) (a_pend a) (a_maxid a) false
+      end
+  | TRetF r =>     (* PeerDoesntExist exactly for a peer that is not connected; Ok only with the command to the primary *)
+      match e with
+      | EForce p _ fp =>
+          mkA (a_conn a) (a_pend a) (a_maxid a)
+              (a_ok a && Bool.eqb (r =? 1) (negb (mem p (a_conn a))) && (r <? 4) &&
+               (if r =? 0 then match hd_error (live_of p live) with
+                               | Some c => existsb (fun o' => match o' with TForce c' => c' =? c | _ => false end) os
+                               | None => false
+                               end
+                else true) &&
+               (if r =? 3 then fp else true))
+      | _ => mkA (a_conn a) (a_pend a) (a_maxid a) false
+      end
   | TDial _ | TSkip | TDown _ _ => a
   end.
 
@@ -283,6 +308,16 @@ Definition judge_step (cap : nat) (ka : bool) (T n0 : N) (o : ost) (dt : N) (e :
                           | TRet 1 _ => true
                           | TRet _ _ => false
                           | TCmd _ _ => false
+                          | _ => true
+                          end) os
+    | EForce p _ _ =>
+        (* force_close returns; ConnectionClosed only when the primary's channel has no strong sender left *)
+        existsb (fun x => match x with TRetF _ => true | _ => false end) os &&
+        forallb (fun x => match x with
+                          | TRetF 2 => match hd_error (live_of p (o_live o)) with
+                                       | Some c => negb (dump_alive (o_prev o) c)
+                                       | None => false
+                                       end
                           | _ => true
                           end) os
     | EOpen p =>
